@@ -163,6 +163,7 @@ type runner struct {
 	sawGC    bool
 	hot      int // steps left in which every image is checked
 	replayed bool
+	tainted  bool                // a violation was already reported for this history
 	viol     func(lib.Violation) // where violations go (the per-signature collector, or a shrink trial)
 	sweeps   int        // byte-offset sweeps left for this history (thorough tier)
 	hooked   []hookSnap // copies of the directory taken at the crash points of the running operation
@@ -407,7 +408,7 @@ func (r *runner) checkDir(dbPath, label string, at any, wantOK bool, want []stri
 		} else if strings.Contains(err.Error(), "HANG") {
 			sig = "reopen-hangs-on-crash-image"
 		}
-		r.viol(lib.Violation{Sig: sig,
+		r.report(lib.Violation{Sig: sig,
 			What:   fmt.Sprintf("NewTendermintWALStore fails on a crash image (%s): %v", label, err),
 			Replay: r.replay(map[string]any{"image": at, "label": label})})
 		if wantOK {
@@ -424,7 +425,7 @@ func (r *runner) checkDir(dbPath, label string, at any, wantOK bool, want []stri
 	if !ok {
 		sig := classify(got, allowed, ackedPre, inflight)
 		r.res.Hit("image:violation")
-		r.viol(lib.Violation{Sig: sig,
+		r.report(lib.Violation{Sig: sig,
 			What:   fmt.Sprintf("after a crash (%s) LoadAllEntries returns %d entries, allowed: %d or %d (%s)", label, len(got), len(allowed[0]), len(allowed[len(allowed)-1]), sig),
 			Replay: r.replay(map[string]any{"image": at, "label": label, "got": got, "allowed": allowed})})
 	}
@@ -472,6 +473,7 @@ func (r *runner) checkImage(cop, ft string, idx int, b base, mask uint64, alt bo
 			return
 		}
 	}
+	r.real.tmpMax = maxDel(r.acked, r.calls)
 	dir, err := r.real.materialise(img, tv, r.rng)
 	if err != nil {
 		// the bytes of a batch that never reached the disk are unknown (failed flush): skip
@@ -760,7 +762,7 @@ func (r *runner) checkOracleOnly(dbPath, label string, at any, allowed [][]strin
 	r.nImages++
 	r.res.Case(fmt.Sprintf("%s/%d/%s/%v", r.name, len(r.log), label, at), len(allowed[0]) > 0 || len(allowed[len(allowed)-1]) > 0)
 	if err != nil {
-		r.viol(lib.Violation{Sig: "reopen-error-on-crash-image",
+		r.report(lib.Violation{Sig: "reopen-error-on-crash-image",
 			What:   fmt.Sprintf("NewTendermintWALStore fails on a crash image (%s): %v", label, err),
 			Replay: r.replay(map[string]any{"image": at, "label": label})})
 		return
@@ -771,7 +773,7 @@ func (r *runner) checkOracleOnly(dbPath, label string, at any, allowed [][]strin
 		}
 	}
 	sig := classify(got, allowed, r.acked, inflight)
-	r.viol(lib.Violation{Sig: sig,
+	r.report(lib.Violation{Sig: sig,
 		What:   fmt.Sprintf("after a crash (%s) LoadAllEntries returns %d entries, allowed: %d or %d (%s)", label, len(got), len(allowed[0]), len(allowed[len(allowed)-1]), sig),
 		Replay: r.replay(map[string]any{"image": at, "label": label, "got": got, "allowed": allowed})})
 }
@@ -797,6 +799,20 @@ func (r *runner) snapshot() {
 	r.res.Hit("image:snapshot")
 	r.checkDir(dst, "snapshot", "directory copied after the last operation", wantOK, want, [][]string{spec(r.acked)}, r.acked, nil, false)
 	_ = os.RemoveAll(dst)
+}
+
+// maxDel is the highest height any DeleteWALEntries call asked for: a leftover temporary watermark
+// file can hold that much at most.
+func maxDel(lists ...[]call) uint64 {
+	var m uint64
+	for _, l := range lists {
+		for _, c := range l {
+			if c.Del && c.H > m {
+				m = c.H
+			}
+		}
+	}
+	return m
 }
 
 func totalBatches(d diskDesc) int {
@@ -1156,7 +1172,7 @@ func (r *runner) exec(o Op) {
 				r.res.Hit(o.K + ":error-after-commit")
 			default:
 				committed = r.real.knownBatches() > preKnown
-				r.viol(lib.Violation{Sig: "failed-flush-leaves-partial-state-in-memory",
+				r.report(lib.Violation{Sig: "failed-flush-leaves-partial-state-in-memory",
 					What:   fmt.Sprintf("%s returned %v and LoadAllEntries shows neither the state before nor the state after the batch", o.K, err),
 					Replay: r.replay(map[string]any{"live": live})})
 			}
@@ -1213,7 +1229,7 @@ func (r *runner) exec(o Op) {
 			r.mismatch("outcome:open", "open", m, fmt.Sprint(err))
 		}
 		if err != nil {
-			r.viol(lib.Violation{Sig: "reopen-error",
+			r.report(lib.Violation{Sig: "reopen-error",
 				What:   fmt.Sprintf("NewTendermintWALStore fails on the directory the history left: %v", err),
 				Replay: r.replay(nil)})
 			r.failed = true
@@ -1372,7 +1388,22 @@ func newRunner(name string, f lib.Flags, res *lib.Result, rng *lib.RNG, level in
 	if name == "replay-0" {
 		sweeps = 4
 	}
-	return &runner{name: name, f: f, res: res, rng: rng, drv: drv, real: newRealSide(root), level: level, serial: serial, sweeps: sweeps, viol: keepBest}, nil
+	return &runner{name: name, f: f, res: res, rng: rng, drv: drv, real: newRealSide(root), level: level, serial: serial, sweeps: sweeps}, nil
+}
+
+// report records a violation of this history. Only the first one counts: once the real store has
+// left the property, everything observed later in the same history is a consequence, and would be
+// named after its symptom rather than its cause.
+func (r *runner) report(v lib.Violation) {
+	if r.tainted {
+		return
+	}
+	r.tainted = true
+	if r.viol != nil {
+		r.viol(v)
+		return
+	}
+	keepBest(v)
 }
 
 func (r *runner) done() {
